@@ -102,7 +102,8 @@ type In struct {
 		Name  string `json:"name"`
 		Canon string `json:"canon"`
 	} `json:"ehlo"`
-	Mf struct {
+	Group bool `json:"group"`
+	Mf    struct {
 		Local string `json:"local"`
 		Dom   string `json:"dom"`
 		Canon string `json:"canon"`
@@ -261,6 +262,8 @@ func checkBlock(in In, ind string) string {
 	if in.R.Given {
 		fmt.Fprintf(&b, "%sreject_threshold %d\n", i2, in.R.V)
 	}
+	type blk struct{ zones, body string }
+	var blocks []blk
 	for _, l := range in.Lists {
 		if l.Form != "block" {
 			continue
@@ -285,10 +288,27 @@ func checkBlock(in In, ind string) string {
 		if l.Score.Given {
 			fmt.Fprintf(&lb, "%sscore %d\n", i3, l.Score.V)
 		}
-		if lb.Len() == 0 {
-			b.WriteString(i2 + l.Zone + " { }\n")
+		// "Using multiple arguments is equivalent to specifying the same
+		// configuration separately for each list."
+		merged := false
+		if in.Group {
+			for k := range blocks {
+				if blocks[k].body == lb.String() {
+					blocks[k].zones += " " + l.Zone
+					merged = true
+					break
+				}
+			}
+		}
+		if !merged {
+			blocks = append(blocks, blk{l.Zone, lb.String()})
+		}
+	}
+	for _, bk := range blocks {
+		if bk.body == "" {
+			b.WriteString(i2 + bk.zones + " { }\n")
 		} else {
-			b.WriteString(i2 + l.Zone + " {\n" + lb.String() + i2 + "}\n")
+			b.WriteString(i2 + bk.zones + " {\n" + bk.body + i2 + "}\n")
 		}
 	}
 	b.WriteString(ind + "    }\n" + ind + "}\n")
